@@ -187,10 +187,10 @@ def check_insert_alignment(run, db):
             for c in s.calls:
                 if c[1].get('short') != 'insert' or 'free_memory_list' not in c[1].get('cls', ''):
                     continue
-                a = _call_args(c[0], 'insert')
-                if not a:
+                sa = c.sub.get('args', []) if hasattr(c, 'sub') else []
+                if not sa:
                     continue
-                p0 = a[0]
+                p0 = sym.canon(sa[0], {})        # the substituted argument itself (template arguments contain commas: no string splitting)
                 m = re.match(r'^\((.+) \+ align_offset\((.+),g:detail::max_alignment\)\)$', p0) or re.match(r'^\(align_offset\((.+),g:detail::max_alignment\) \+ (.+)\)$', p0)
                 if m:
                     x, y = m.group(1), m.group(2)
@@ -243,7 +243,7 @@ def check_buckets(run, db, rule='R-BUCKET'):
                 if not ne <= {'((P::index_from_size($max_node_size) - MIN) + 1)', '(1 + (P::index_from_size($max_node_size) - MIN))', '((1 + P::index_from_size($max_node_size)) - MIN)'} or not ne:
                     probs.append('the number of lists is %s, not index_from_size(max_node_size) - min + 1' % sorted(ne))
                 cons = {_norm_bucket(c[0]) for s in S for c in s.calls if c[1].get('k') == 'construct' and 'free_memory_list' in str(c[1].get('type', ''))}
-                if cons and not any(re.search(r'\{P::size_from_index\(\((0 \+ MIN|MIN \+ 0|MIN)\)\)\}$', c) for c in cons):
+                if cons and not any(re.search(r'\{P::size_from_index\((\(0 \+ MIN\)|\(MIN \+ 0\)|\(MIN\)|MIN)\)\}$', c) for c in cons):
                     probs.append('list i is created with %s, not size_from_index(i + min)' % sorted(cons)[0][-80:])
             elif f.short == 'get':
                 for s in fwd.summarize(f, db=db, roles={0: 'node_size'}, no_forward=True):
@@ -259,7 +259,9 @@ def check_buckets(run, db, rule='R-BUCKET'):
                         if lv.get('this.array_') == 1:
                             idx = {a: v for a, v in lv.items() if a != 'this.array_'}
                     want = {} if clamp else {'P::index_from_size($node_size)': 1, 'MIN': -1}
-                    if idx != want:
+                    # the clamp written as std::max(index, min) - min is both cases in one expression
+                    clamped = [{'max(P::index_from_size($node_size),MIN)': 1, 'MIN': -1}, {'max(MIN,P::index_from_size($node_size))': 1, 'MIN': -1}]
+                    if idx != want and not (idx in clamped and not any('index_from_size' in _norm_bucket(c) for c, tk in s.conds)):
                         probs.append('get(size) returns %s, expected the list at index %s' % (_norm_bucket(s.ret)[:80], 'min - min' if clamp else 'index_from_size(size) - min'))
             elif f.short == 'max_node_size':
                 for s in fwd.summarize(f, db=db, roles={}, no_forward=True):
